@@ -7,7 +7,13 @@ the C04-style campaign plus upload-shaped PUT/DELETE/PATCH/POST bodies, and at p
 each batch; (d) sentinel directories OUTSIDE the generated trees (the temporary directory, the home
 directory, a directory of absolute names the requests mention) compared before/after the whole run;
 (e) the real binary started in a served directory that holds a configuration file.
-Generators: vlib/gen_c13.py (class table: AUDIT.md of the generator audit)."""
+Second audit pass (relations of two inputs, AUDIT2.md): (g) batches on a matrix tree (header x size / type / neighbours of the file), resume / Expect /
+pipelining / Host / digest relations, a long run in one process; (h) an OBSERVED SESSION (vlib/gen_c13.aged_session): one harness process driven line by
+line against a tree whose modification times the check sets itself (sidecars staler / fresher than their files by seconds to days, left-overs older than a
+year, also in TMPDIR / HOME / XDG_* of the process), the tree and those directories looked at after EVERY request; (f) props/c13_clients.py: what the client
+does after sending (resets, stalled and slow readers, split requests, eight at once for the same file) against the real binary, which then stays up idle
+until the end of the check and is stopped gracefully.
+Generators: vlib/gen_c13.py (class tables: audit/C13/AUDIT.md, AUDIT2.md of the generator audits)."""
 import os, threading
 from vlib import common as C, serve as S, reqgen as G, strict_http as H, servecheck as K, gen_c13 as X
 from props import c04
@@ -71,6 +77,14 @@ def build(rng, tier, sent):
     for k in range(6):
         tree = X.builtin_variant_tree(rng, k, sent)
         batches.append((tree, X.endpoint_cases(rng, tree, tier) + (X.read_cases(rng, tree, tier) if not quick else [])))
+    # ---- second audit pass (AUDIT2.md): relations of two inputs.  A generator of its own (forked), so that the streams above stay as they were
+    r2 = rng.fork('audit2')
+    mt = X.matrix_tree(r2, sent)
+    batches.append((mt, X.negotiation_cases(r2, mt, tier) + X.range_walk_cases(r2, mt, tier) + X.listing_cases(r2, mt, tier) + X.query_word_cases(r2, mt, sent, tier)))
+    for i in range(1 if quick else 6):
+        tree = X.enrich(r2, S.gen_tree(r2, small=True), sent)
+        batches.append((tree, X.resume_cases(r2, tree, sent, tier) + X.expect_cases(r2, tree, tier) + X.pipeline_cases(r2, tree, sent, tier) + X.part_header_cases(r2, tree, tier)
+                        + X.query_word_cases(r2, tree, sent, tier) + X.host_cases(r2, tree, sent, tier)))
     groups = [(None, [(t, X.with_probes(cs, 60 if len(cs) < 3000 else 150)) for t, cs in batches])]
     # ---- other configurations: a restricted CORS list with a 5000-byte buffer, and no configuration at all
     for env in (X.CORS_ENV, X.BARE_ENV):
@@ -81,6 +95,16 @@ def build(rng, tier, sent):
             if not quick: cases += X.upload_cases(rng, tree, sent, tier) + X.read_cases(rng, tree, tier)
             g.append((tree, X.with_probes(cases)))
         groups.append((env, g))
+    # ---- (second audit pass) more requests in one process than a batching rule counts to.  Implementation only (the model has no counters).
+    tree = X.enrich(r2, S.gen_tree(r2, small=True), sent); tree.no_model = True
+    groups.append((None, [(tree, X.with_probes(X.long_run_cases(r2, tree, sent, 10200 if quick else 70000), 1000))]))
+    # ---- (second audit pass) relation configuration x request: every RWS_* name the source mentions that the default configuration does not set,
+    # switched on (nothing on the tree as it is; a setting added by a change is in this list the moment it is written).  Implementation only.
+    extra = X.feature_env_names()
+    for val in (('true', '1', 'rws-feature.out') if extra else ()):
+        tree = X.enrich(r2, S.gen_tree(r2, small=True), sent); tree.no_model = True
+        cases = X.endpoint_cases(r2, tree, tier) + X.read_cases(r2, tree, tier) + X.initiate_cases(r2, tree, X.name_pool(tree, sent), tier) + X.multipart_cases(r2, tree, X.name_pool(tree, sent), tier)
+        groups.append((S.DEFAULT_ENV + [(n, val) for n in extra], [(tree, X.with_probes(cases))]))
     return groups
 
 def same_but_for_time(il, ml):
@@ -198,7 +222,10 @@ def startup_config_check(res, tier, seed):
 
 def run(res, tier, seed):
     rng = C.Rng(seed)
-    from props import c13_runtime as RT
+    from props import c13_runtime as RT, c13_clients as CL
+    # (f) what the client does after sending (resets, stalled and slow readers, split requests, eight at once) against the real binary: started
+    # before everything else - it plays in the background and the server then stays up, idle, until the end of the check (timers, background jobs)
+    clients = CL.Clients(tier, seed)
     with X.Sentinel(seed) as sent:
         outside_before = sent.snapshot()
         groups = build(rng, tier, sent)
@@ -216,6 +243,14 @@ def run(res, tier, seed):
                     big_cases.append(K.mk(big_tree, 'GET', '/big/' + name, [], entry=entry, ws=ws, flush=fl, kind='big-transfer'))
                 big_cases.append(K.mk(big_tree, 'GET', '/big/' + name, [('Range', 'bytes=0-1100000')], entry=entry, ws='e:0', kind='big-transfer'))
                 big_cases.append(K.mk(big_tree, 'HEAD', '/big/' + name, [], entry=entry, ws='e:0', kind='big-transfer'))
+        # (second audit pass) relation header x LARGE file: negotiation, ranges that start inside the file, several ranges, revalidation - delivered and
+        # refused; a `.gz` neighbour older than the 1.2 MiB file and one newer than the 1 MiB file
+        big_tree.files = {big_tree.cwd + b'/big/large.bin.gz': b'\x1f\x8b older', **big_tree.files, big_tree.cwd + b'/big/mib.bin.gz': b'\x1f\x8b newer'}
+        for name in ('large.bin', 'mib.bin'):
+            for k, hs in enumerate(([('Accept-Encoding', 'gzip')], [('Accept-Encoding', 'br, gzip;q=0.5')], [('Range', 'bytes=1-')], [('Range', 'bytes=1048000-')], [('Range', 'bytes=0-0,1048570-1048575')],
+                                    [('Range', 'bytes=100-'), ('If-Range', '"abc"')], [('If-None-Match', '"x"')], [('Want-Digest', 'sha-256')])):
+                big_cases.append(K.mk(big_tree, 'GET', '/big/' + name, hs, entry=X.ENTRIES[k % 2], kind='big-transfer'))
+                if k < 4: big_cases.append(K.mk(big_tree, 'GET', '/big/' + name, hs, entry=X.ENTRIES[(k + 1) % 2], ws=('e:0', 'e:1')[k % 2], kind='big-transfer'))
         # stable order: every refused delivery after every completed one, and the batch ends once with a refused delivery on each entry
         # point (a transfer that ends properly on one entry point may clean up what a refused one on the other left behind)
         big_cases.sort(key=lambda c: (c.ws == 'e:0' or c.flush == 'e'))
@@ -230,9 +265,18 @@ def run(res, tier, seed):
         def work(i):
             wm = WITH_MODEL and not getattr(groups[i][1][0][0], 'no_model', False)
             out[i] = K.run_batches(groups[i][1], with_model=wm, env=groups[i][0])
-        ts = [threading.Thread(target=work, args=(i,)) for i in range(len(groups))]
+        # aged trees (second audit pass): the check sets modification times itself and looks at the tree after every request; sessions with
+        # directories of their own, run while the batches run, results merged afterwards
+        aged_res = C.Result('C13')
+        def aged():
+            for i in range(1 if tier == 'quick' else 4):
+                X.aged_session(aged_res, rng.fork('aged%d' % i), sent, tier, env=(None, X.CORS_ENV, X.BARE_ENV, None)[i % 4], idx=i)
+        ts = [threading.Thread(target=work, args=(i,)) for i in range(len(groups))] + [threading.Thread(target=aged)]
         for t in ts: t.start()
         for t in ts: t.join()
+        res.failures += aged_res.failures; res.disagreements += aged_res.disagreements; res.notes += aged_res.notes
+        res.evaluations += aged_res.evaluations; res.distinct |= aged_res.distinct
+        for k, v in aged_res.dist.items(): res.count(k, v)
         outside_after = sent.snapshot()
         sent.restore_env()
         nbatches = nreq = 0
@@ -269,6 +313,7 @@ def run(res, tier, seed):
     RT.report_inventory(res)                      # (a) effect inventory of the source, regenerated now
     RT.manifest_check(res, tier, seed)            # (c') the REAL binary over an arena with sentinel directories
     startup_config_check(res, tier, seed)         # (e) the real binary next to a configuration file
+    clients.finish(res)                           # (f) started first, stopped last (see above)
     if tier == 'thorough':
         st = RT.strace_check(tier, seed)          # (b) the real binary under strace
         res.extra['strace'] = {k: v for k, v in st.items() if k != 'violations'}
@@ -277,6 +322,8 @@ def run(res, tier, seed):
     res.rule = ('request sequences of the C04 campaign and upload-shaped bodies (multipart with file parts in every position / spelling, urlencoded, octet-stream, chunked, sized around the buffer) on '
                 'every method incl. WebDAV against files, directories, links of every shape (dangling, chains, loops, absolute, through linked directories), new names, traversals, absolute names, '
                 'the built-in routes with their files in six states, the form and file-upload endpoints at every numeric threshold, rejected requests, transport failures, histories, the source\'s own '
-                'vocabulary, three configurations, both entry points and the handler called directly; the manifest of the WHOLE generated tree (root, ancestors, siblings) is compared before/after '
+                'vocabulary, three configurations, both entry points and the handler called directly; relations of two inputs (negotiation / caching / proxy / upgrade headers x files of every type around every size threshold with '
+                'sidecars older and newer, validators that match, announcements of files that exist, Expect and pipelined requests around the buffer, range walks, Host values, digests that match, 10000 requests in one process, '
+                'files with ages from seconds to years in an observed session, client behaviours against the real binary); the manifest of the WHOLE generated tree (root, ancestors, siblings) is compared before/after '
                 'each batch and at probes inside it, sentinel directories outside the trees before/after the run; distinct = (entry, request)')
     res.sample({'batches': nbatches, 'requests': nreq, 'manifest_sample': sample_manifest})
